@@ -88,8 +88,7 @@ def plan(tier, seed):
     for i in range(6 if q else 60):
         b.append({"gen": "ints", "seed": s + 1 + i, "n": 15000 if q else 50000, "nbytes": 3000})
     for base in ACK_BASES:
-        for lo in (1, 2048):
-            b.append({"gen": "ack_universe", "seed": s, "base": base, "lo": lo, "hi": lo + 2047 if lo == 1 else 4096})
+        b.append({"gen": "ack_universe", "seed": s, "base": base, "lo": 1, "hi": 4096})
     for i in range(6 if q else 60):
         b.append({"gen": "ack_random", "seed": s + i, "n": 400 if q else 1500, "nbytes": 1500})
     for version in (V1, V2):
@@ -116,7 +115,8 @@ def plan(tier, seed):
     groups = {}
     for x in b:
         groups.setdefault((x["gen"], x.get("msg"), x.get("what")), []).append(x)
-    out = []
+    # the exhaustive sets go first so that a budget cut-off on a loaded machine never loses them
+    out = [groups[("ints", None, None)].pop(0)] + groups.pop(("ack_universe", None, None))
     while any(groups.values()):
         for k in list(groups):
             if groups[k]:
